@@ -119,7 +119,8 @@ def _rel(r, env, K, ds):
         return Rel("base", quals, t, None, t)
     if r["k"] == "derived":
         return Rel("sub", {r["alias"]}, None, eval_query(r["q"], env, K, ds), r["alias"])
-    return Rel("sub", {r["alias"] or r["name"]}, None, env[r["name"]], r["alias"] or r["name"])
+    # label: a CTE stays one relation however it is aliased where it is read; it is named by its CTE name
+    return Rel("sub", {r["alias"] or r["name"]}, None, env[r["name"]], r["name"])
 
 
 def _expand(rel: Rel, name, K):
